@@ -160,6 +160,19 @@ def main(argv):
         print(l, flush=True)
 
     wall = time.time() - ctx.t0
+    shared = []
+    fam_text = {
+        "scale:": "scale families (the same small programs with N constants / locals / arguments / sibling statements / nesting levels / live objects for N around 127..130, 254..258, 4095..4097 and far beyond in the thorough tier, closed-form expected values)",
+        "code-boundary": "every kind of jump and a call placed across byte 65536 of the code (rejected as too large or as at offset 0)",
+        "stray-jump:": "stop / volgende under every nesting of loops, functions, blocks and branches to depth 4",
+        "failing-line-sessions": "retained sessions with 60 kinds of failing lines (run-time, compile-time at every nesting depth, parse) at two positions and three times over: later lines answer as without them",
+        "special-values": "21 special values through every operator, prefix operator, builtin and index position in both build profiles",
+        "gen:collide-": "generated programs that borrow names across name spaces (globals, functions, parameters, nested functions)",
+        "search_programs": "SEARCH after a broken correspondence / proof obligation (specification oracle only)",
+    }
+    for key, text in fam_text.items():
+        if any(k.startswith(key) for k in ctx.stats):
+            shared.append(text)
     coverage = dict(
         obligations=max(obligations, 1),
         discharged=discharged,
@@ -168,7 +181,7 @@ def main(argv):
         theorems=theorem_status,
         evaluations=ctx.evaluations,
         distinct_nontrivial=len(ctx.distinct),
-        rule="; ".join(ctx.rules) or getattr(mod, "RULE", ""),
+        rule=("; ".join(ctx.rules) or getattr(mod, "RULE", "")) + (" SHARED FAMILIES ALSO RUN: " + "; ".join(shared) if shared else ""),
         samples=ctx.samples or ["(no case was run)"],
         distribution=ctx.stats,
         traces_validated_against_impl=ctx.evaluations,
